@@ -321,6 +321,21 @@ def hash_routes(out, rng):
             return type(m)(m.type, **kw) if type(m) in (mido.Message, mido.MetaMessage) else m.copy(time=kw['time'])
         routes += [('float-time', lambda: numeric_twin('float-time')), ('int-time', lambda: numeric_twin('int-time')), ('bool-values', lambda: numeric_twin('bool-values'))]
         f = freeze_message(m)
+        # hashing (using it as a key) must leave the message as it is: same attributes, still equal to an unhashed twin, same thawed message
+        n += 1
+        try:
+            twin0 = freeze_message(m)
+            before = dict(vars(twin0))
+            hash(twin0); {twin0: 1}; {twin0}
+            if dict(vars(twin0)) != before or not (twin0 == freeze_message(m)) or not (thaw_message(twin0) == m) or vars(thaw_message(twin0)).keys() != vars(m).keys():
+                out.failures.append(('hash-changes-message', 'after hash() the frozen form of %r has attributes %r (before: %r)' % (m, sorted(vars(twin0)), sorted(before)),
+                                     {'component': 'hash-routes', 'message': repr(m)}))
+            elif type(m) is mido.Message:
+                back = mido.Message.from_dict(twin0.dict())
+                if not (back == m):
+                    out.failures.append(('hash-changes-message', 'after hash(), from_dict(frozen.dict()) of %r gives %r' % (m, back), {'component': 'hash-routes', 'message': repr(m)}))
+        except Exception as e:  # noqa: BLE001
+            out.failures.append(('hash-raises', 'hashing the frozen form of %r and using it afterwards raised %r' % (m, e), {'component': 'hash-routes', 'message': repr(m)}))
         for tag, mk in routes:
             n += 1
             try:
